@@ -1102,6 +1102,25 @@ DOCSTRING = """{ hero { name friends { ... friendsData } } }
 fragment friendsData on Character { friends { name friends { name } } }"""
 
 
+def wide_docs():
+    """WIDE selection sets (seeded C19-12): one selection set holding 6..16 SIBLING fragment expansions — the way a union /
+       interface with many members is selected — at depth 0..2. The nesting budget of `collect_fields_untyped` bounds the NESTING
+       of expansions, never their number: these documents have depth 0..2 whatever the width. Deterministic (no rng)."""
+    for depth in (0, 1, 2):
+        for shape, widths in (("inline", (6, 7, 8, 10, 12)), ("inline-typed", (7, 12)), ("spreads+inline", (8, 12, 16))):
+            for w in widths:
+                if shape == "spreads+inline":
+                    wide = [S("W1"), S("W2")] + [I([F("c", alias="z")]) for _ in range(w)]
+                    frags = [{"name": "W1", "sels": [F("c")]}, {"name": "W2", "sels": [F("d")]}]
+                else:
+                    wide = [I([F("c")], typed=(shape == "inline-typed")) for _ in range(w)]
+                    frags = []
+                sels = wide
+                for _ in range(depth):
+                    sels = [F("a", sels)]
+                yield shape, depth, w, {"ops": [{"name": "Q", "sels": sels}], "frags": frags}
+
+
 def corpus_cases():
     from common import CORPUS
     d = CORPUS / "C19"
@@ -1231,6 +1250,24 @@ def run(ctx):
         ctx.stat("cyclic-hand-made")
         check(case, ("cyc-fixed", p_doc(cdoc)))
         cyclic_pipeline(ctx, real, cdoc, {}, case.vs)
+    flush()
+
+    # --- seeded C19-12: WIDE selection sets (many sibling expansions, small depth) --------------------
+    wide_failed = set()
+    for shape, depth, w, wdoc in wide_docs():
+        case = Case(doc_with_types(wdoc), {})
+        ctx.count()
+        ctx.stat("wide-siblings")
+        ctx.nontrivial(("wide", shape, depth, w))
+        fails = oracle_failures(real, case)
+        if fails and shape not in wide_failed:
+            wide_failed.add(shape)             # the narrowest failing width of each shape names the class
+            kind, i, info = fails[0]
+            ctx.fail("%s:wide-siblings:%s" % (kind.split(":")[0], shape),
+                     "the verdict of the depth rule depends on the NUMBER of sibling fragment expansions in one selection set "
+                     "(depth %d, %d siblings)" % (depth, w),
+                     case.detail(operation=i, spec_depth=ref_depth(case.doc, i, case.vs), **info))
+        pending.append(case)
     flush()
 
     # --- hunt finding C19/2: every fragment spread twice (exponentially many paths, one depth) ------
